@@ -180,7 +180,7 @@ class MAE(PredictMetric, ListMetric, DecomposedMetric):
     def measure_list(self, predictions: ItemList, test: ItemList | None = None, /) -> float:
         ps, ts = self.align_scores(predictions, test)
         err = ps - ts
-        return np.mean(np.abs(err)).item()
+        return float(np.mean(np.abs(err)))
 
     @override
     def compute_list_data(self, output, test):
